@@ -29,7 +29,7 @@ GAVA_MACROS = [
 
 contract(F + "AbstractDissimilarity._get_all_valid_alignments",
          params={"unit_arrays": ListOf(NdArray("f32", 2)), "d_mat": DMAT, "delta_empty": RealT()},
-         returns=TupleOf(NdArray("f32", 1), NdArray("i16", 2)),
+         returns=TupleOf(NdArray("f32", 1), NdArray("i16", 2)), static=True,
          coerce={"disorder": "Real"},
          lets={"na": "len(unit_arrays)", "C2": "na * (na - 1) // 2"},
          ghost_funs=[GhostFun("Y", "Int -> AInt"), GhostFun("PS", "Int Int Int -> Real"), GhostFun("tri", "Int -> Int")],
@@ -39,7 +39,7 @@ contract(F + "AbstractDissimilarity._get_all_valid_alignments",
                  "   PS(r, a, b + 1) == PS(r, a, b) + Mx(a, b, Y(r)[a], Y(r)[b])), pat=[PS(r, a, b + 1)])",
                  "forall([r, a], implies(0 <= a and a < na, PS(r, a + 1, 0) == PS(r, a, a)), pat=[PS(r, a + 1, 0)])",
                  "tri(0) == 0", "forall(a, implies(a >= 0, tri(a + 1) == tri(a) + a), pat=[tri(a + 1)])"],
-         ghost_vars={"rk": ("AInt", None), "pos": ("AInt", None)},
+         ghost_vars={"rk": ("AInt", None), "pos": ("AInt", None), "SZ": ("AInt", None)},
          lemmas=[
              Lemma("tri_closed", "2 * tri(a) == a * (a - 1)", binders=[("a", "Int")], hyps=["0 <= a"],
                    method=("induction", "a", "0")),
@@ -96,20 +96,25 @@ contract(F + "AbstractDissimilarity._get_all_valid_alignments",
              "L2.0.0": dict(match="for annot_b in range(annot_a)",
                             inv=["disorder == PS(rc, annot_a, annot_b)"]),
          },
-         hooks=[("before", "disorders[i_chosen] = disorder", "rk = store(rk, i_chosen, rc)"),
+         hooks=[("before", "disorders = np.empty(chunk_size, dtype=np.float32)", "SZ = sizes_with_null"),
+                ("before", "disorders[i_chosen] = disorder", "rk = store(rk, i_chosen, rc)"),
                 ("before", "disorders[i_chosen] = disorder", "pos = store(pos, rc, i_chosen)"),
                 # after the enumeration: the last tuple (rank P-1) is the all-null one, it is a candidate (delta_empty >= 0),
                 # hence it sits at index i_chosen-1 and the slice removes exactly it
-                ("before", SLICE, "assert w(na) >= 1 and forall(a, 0, na, Y(w(na) - 1)[a] == m(a))"),
-                ("before", SLICE, "assert PS(w(na) - 1, na, 0) == tri(na) * delta_empty and tri(na) == C2 and C2 >= 1"),
-                ("before", SLICE, "assert cand(w(na) - 1)"),
-                ("before", SLICE, "assert i_chosen >= 1 and rk[i_chosen - 1] == w(na) - 1")],
+                ("before", SLICE, "assert w(SZ, na) >= 1 and forall(a, 0, na, Y(w(SZ, na) - 1)[a] == m(a))"),
+                ("before", SLICE, "assert PS(w(SZ, na) - 1, na, 0) == tri(na) * delta_empty and tri(na) == C2 and C2 >= 1"),
+                ("before", SLICE, "assert cand(w(SZ, na) - 1)"),
+                ("before", SLICE, "assert i_chosen >= 1 and rk[i_chosen - 1] == w(SZ, na) - 1")],
          ensures=[cl("len(result[0]) == len(result[1]) and shape(result[1])[1] == na", name="shapes"),
-                  cl("forall(k, 0, len(result[0]), 0 <= rk[k] and rk[k] < w(na) - 1 and cand(rk[k]) and "
+                  cl("forall(a, 0, na, SZ[a] == m(a) + 1)", name="radices"),
+                  cl("forall(k, 0, len(result[0]), forall(a, 0, na, 0 <= result[1][k][a] and result[1][k][a] <= m(a)))",
+                     "C01 C07 C11", name="box"),
+                  cl("forall(k, 0, len(result[0]), exists(a, 0, na, result[1][k][a] < m(a)))", "C01 C07 C11", name="never-all-empty"),
+                  cl("forall(k, 0, len(result[0]), 0 <= rk[k] and rk[k] < w(SZ, na) - 1 and cand(rk[k]) and "
                      "result[0][k] == S(rk[k]) / C2 and forall(a, 0, na, result[1][k][a] == Y(rk[k])[a]))",
                      "C07 C01 C02 C11", name="sound"),
                   cl("forall(k1, 0, len(result[0]), forall(k2, k1 + 1, len(result[0]), rk[k1] < rk[k2]))", "C07", name="once"),
-                  cl("forall(r, 0, w(na) - 1, implies(cand(r), 0 <= pos[r] and pos[r] < len(result[0]) and rk[pos[r]] == r))",
+                  cl("forall(r, 0, w(SZ, na) - 1, implies(cand(r), 0 <= pos[r] and pos[r] < len(result[0]) and rk[pos[r]] == r))",
                      "C07 C02 C11", name="complete"),
                   ],
          serves={"C01", "C02", "C07", "C09", "C11"})
@@ -121,7 +126,7 @@ contract(F + "AbstractDissimilarity._get_all_valid_alignments",
 # =========================================================================================================
 contract(F + "AbstractDissimilarity._compute_alignment_disorders",
          params={"alignment_array": NdArray("f32", 3), "d_mat": DMAT, "delta_empty": RealT()},
-         returns=NdArray("f32", 1),
+         returns=NdArray("f32", 1), static=True,
          lets={"NA": "shape(alignment_array)[0]", "na": "shape(alignment_array)[1]", "C2": "na * (na - 1) // 2"},
          ghost_funs=[GhostFun("PSA", "Int Int Int -> Real"), GhostFun("tri", "Int -> Int")],
          macros=[Macro("empty", ["u", "i"], "alignment_array[u][i][3] == -1"),
@@ -228,3 +233,53 @@ contract(F + "CombinedCategoricalDissimilarity.compile_d_mat.<locals>.d_mat",
          requires=ROW_REQ,
          ensures=[cl("result == alpha * pos(unit1, unit2) + beta * cat(unit1, unit2)", "C04 C09", name="formula")],
          serves={"C04", "C09"})
+
+
+# =========================================================================================================
+# AbstractDissimilarity._build_arrays_continuum / valid_alignments     (tier B;  C01, C02, C07, C11)
+# =========================================================================================================
+from pyvc.heap import ObjT, OptObjT, UnitT as UnitVT      # noqa: E402
+from .speclib import VIEW_MACROS                           # noqa: E402
+
+DISSIM = lambda: ObjT("AbstractDissimilarity", delta_empty=RealT(), d_mat=DMAT, categories=OptObjT(ObjT("SetStr")))   # noqa: E731
+CONT = lambda: ObjT("Continuum")                           # noqa: E731
+ENC_MACROS = VIEW_MACROS + [
+    Macro("catidx", [], "ite(isnone(self.categories), Cidx(continuum), idxof(self.categories))"),
+    Macro("catmem", [], "ite(isnone(self.categories), Cat(continuum), members(self.categories))"),
+    Macro("unitAt", ["a", "j"], "Useq(continuum)[Kseq(continuum)[a]][j]"),
+    Macro("cntAt", ["a"], "Cnt(continuum)[Kseq(continuum)[a]]"),
+    Macro("row_ok", ["row", "a", "j"],
+          "row[0] == unitAt(a, j).s and row[1] == unitAt(a, j).e and row[2] == unitAt(a, j).e - unitAt(a, j).s and "
+          "row[3] == catidx()[unitAt(a, j).lab]"),
+]
+
+contract(F + "AbstractDissimilarity._build_arrays_continuum",
+         params={"self": DISSIM(), "continuum": CONT()}, returns=ListOf(NdArray("f32", 2)),
+         locals={"unit_arrays": NdArray("f32", 2)}, macros=ENC_MACROS,
+         requires=["RI(continuum)"],
+         raises={"AssertionError": {"iff": "not forall([(l, Real)], implies(Cat(continuum)[l], catmem()[l]))"}},
+         ensures=[cl("len(result) == Nkeys(continuum)", "C01 C02 C07 C11", name="one-array-per-annotator"),
+                  cl("forall(a, 0, Nkeys(continuum), shape(result[a]) == (cntAt(a), 4))", "C01 C02 C07 C11", name="one-row-per-unit"),
+                  cl("forall(a, 0, Nkeys(continuum), forall(j, 0, cntAt(a), row_ok(result[a][j], a, j)))", "C02 C07 C03",
+                     name="rows-encode-units-in-order")],
+         loops={"L0": dict(match="for annotator_id, (annotator, units) in enumerate(continuum._annotations.items())",
+                           inv=["len(unit_arrays) == annotator_id",
+                                "forall(a, 0, annotator_id, shape(unit_arrays[a]) == (cntAt(a), 4))",
+                                "forall(a, 0, annotator_id, forall(j, 0, cntAt(a), row_ok(unit_arrays[a][j], a, j)))"]),
+                "L0.0": dict(match="for unit_id, unit in enumerate(units)",
+                             inv=["shape(unit_array) == (cntAt(annotator_id), 4)",
+                                  "forall(j, 0, unit_id, row_ok(unit_array[j], annotator_id, j))"])},
+         serves={"C01", "C02", "C03", "C07", "C11"})
+
+contract(F + "AbstractDissimilarity.valid_alignments",
+         params={"self": DISSIM(), "continuum": CONT()}, returns=TupleOf(NdArray("f32", 1), NdArray("i16", 2)),
+         macros=ENC_MACROS,
+         requires=["RI(continuum)", "Nkeys(continuum) >= 2", "self.delta_empty >= 0",
+                   "forall(a, 0, Nkeys(continuum), cntAt(a) <= 32766)"],
+         raises={"AssertionError": {"iff": "not forall([(l, Real)], implies(Cat(continuum)[l], catmem()[l]))"}},
+         ensures=[cl("len(result[0]) == len(result[1]) and shape(result[1])[1] == Nkeys(continuum)", name="shapes"),
+                  cl("forall(k, 0, len(result[0]), forall(a, 0, Nkeys(continuum), 0 <= result[1][k][a] and result[1][k][a] <= cntAt(a)))",
+                     "C01 C07 C11", name="box"),
+                  cl("forall(k, 0, len(result[0]), exists(a, 0, Nkeys(continuum), result[1][k][a] < cntAt(a)))",
+                     "C01 C07 C11", name="never-all-empty")],
+         serves={"C01", "C02", "C07", "C11"})
